@@ -57,6 +57,38 @@ def helper_closure(P, f):
     return out
 
 
+def uint_text_wrappers(ctx):
+    """Inherent helpers of Uint256 that are its text parser under another name (`fn parse_dec(val: &str) -> Result<Self, String>`):
+    one `U256::from_dec_str` on the helper's own input, Ok exactly when it returned Ok (with that value), every other exit an
+    error (further tests on the error side only choose the message).  {path: Fn}"""
+    P = ctx.P
+    out = {}
+    for g in P.fns.values():
+        if g.crate != "bignumber" or g.impl_self != U or g.impl_trait is not None or g.body is None or g.derived or "::tests::" in g.path or g.body.back_edges():
+            continue
+        ps = calls_named(P, g, "from_dec_str")
+        if len(ps) != 1 or g.body.arg_count != 1 or set(ctx.roots(ps[0][1][4][0])) != {P_(g, 0)}:
+            continue
+        pv = ps[0][1]
+        PR = "C:%s@%s:bb%d" % (generic_path(pv[3]), g.path, pv[2])
+        good, n_ok = True, 0
+        for (b, i, cls, v) in common.exit_sites(P, g):
+            cs_ = lemmas.cond_strings(ctx, common.control_conditions(P, g, b))
+            if cls == "ok":
+                n_ok += 1
+                rs = set(ctx.roots(v, (("v", "Ok"), ("f", 0)))) | set(ctx.roots(v, (("v", "Ok"), ("f", 0), ("f", 0))))
+                if cs_ != {"discr(%s) in ['Ok']" % PR} or not any(PR in r for r in rs):
+                    good = False
+            elif cls == "err":
+                if "discr(%s) in ['Err']" % PR not in cs_:
+                    good = False
+            else:
+                good = False
+        if good and n_ok:
+            out[g.path] = g
+    return out
+
+
 def calls_named_deep(P, fns, name):
     return [(b, v) for f in fns for (b, v) in calls_named(P, f, name)]
 
@@ -284,6 +316,12 @@ def run(ctx):
             continue
         vf = vis[0]
         parses = [(b, v) for b, v in calls_named(P, vf, parse_callee)]
+        if not parses and ty == U:
+            # the visitor may go through the type's own verified text parser (`Uint256::parse_dec(v)`)
+            wr = uint_text_wrappers(ctx)
+            parses = [(b, P.val_call(vf, vf.body, b)) for b, p, fr, t in P.calls(vf) if p and ((P.fn(p) or P.fn(generic_path(p))) is not None and (P.fn(p) or P.fn(generic_path(p))).path in wr)]
+            if len(parses) == 1:
+                parse_callee = common.last_seg(parses[0][1][3])
         if len(parses) != 1 or set(ctx.roots(parses[0][1][4][0])) != {P_(vf, 1)}:
             t2.fail("C18.T2:visitor-parse:%s" % short, vf.path, vf.span, "visitor does not parse its input with %s" % parse_callee)
             continue
@@ -349,7 +387,9 @@ def run(ctx):
             t4.site("From<%s> for %s = %s::from_str(&x.to_string()).unwrap()" % (source.split("::")[-1], target.split("::")[-1], target.split("::")[-1]))
         else:
             t4.fail("C18.T4:%s" % target, f.path, f.span, "conversion does not go through to_string -> from_str of the target type")
-    u_parsers = set()
+    u_parsers = set(uint_text_wrappers(ctx))
+    for p_ in sorted(u_parsers):
+        t4.site("%s is Uint256's text parser (from_dec_str on its input, Ok exactly then)" % p_.split("::")[-1])
     for name, tr_ in (("try_from", "convert::TryFrom"), ("from_str", "str::FromStr"), ("try_from", "convert::TryFrom")):
         f = trait_fn(P, U, tr_, name) or next((g for g in P.fns.values() if g.crate == "bignumber" and g.name == name and g.impl_self == U and g.body is not None and (g.impl_trait or "").endswith(tr_)), None)
         if f is None:
